@@ -89,6 +89,7 @@ class Ctx:
             if k is not None:
                 self.known_hits.setdefault(k["id"], {"entry": k, "count": 0, "example": rec})
                 self.known_hits[k["id"]]["count"] += 1
+                self.known_hits[k["id"]].setdefault("ops", collections.Counter())[op] += 1
             else:
                 self.failures.append(rec)
         elif not agree:
